@@ -1,8 +1,8 @@
 package rules
 
 import (
-	"go/constant"
 	"fmt"
+	"go/constant"
 	"go/token"
 	"go/types"
 	"sort"
@@ -1069,7 +1069,6 @@ func c13IndexEntries(c *an.Ctx) {
 	c.Check(bad == "", "C13-R13", k+" keeps every index entry", fn.Pos(),
 		fmt.Sprintf("the decoded entries are only sorted (%d slices.* calls)", n), bad+": an entry can be removed before it was validated")
 }
-
 
 // c13IndexDecode: an index (rule lists, blocked services) that cannot be
 // decoded is rejected as a whole, whatever the kind of the decoding error; a
